@@ -90,7 +90,12 @@ def r3_r4_r5_go(ctx):
         ctx.lost("C15.R3", P + "GO_TOKENS")
         return
     ok = sorted(gt) == sorted(kws) and len(set(gt)) == len(gt)
-    ctx.ob("C15.R3", "GO_TOKENS=arms", ok, "" if ok else "GO_TOKENS %s vs. tokens matched in parse_go %s" % (sorted(gt), sorted(kws)), ctx.where(f), sample={"GO_TOKENS": gt})
+    if not kws:
+        # parse_go does not compare the token with literals itself (it looks the token up in a table and
+        # dispatches on the index): the arms are not read here
+        ctx.lost("C15.R3", "the tokens parse_go dispatches on (no comparison with a literal found)")
+    else:
+      ctx.ob("C15.R3", "GO_TOKENS=arms", ok, "" if ok else "GO_TOKENS %s vs. tokens matched in parse_go %s" % (sorted(gt), sorted(kws)), ctx.where(f), sample={"GO_TOKENS": gt})
     ok = sorted(gt) == sorted(spec["go_tokens"])
     ctx.ob("C15.R3", "GO_TOKENS=uci", ok, "" if ok else "GO_TOKENS %s vs. UCI go parameters %s" % (sorted(gt), sorted(spec["go_tokens"])), ctx.where(f))
     go_local = None
@@ -236,7 +241,12 @@ def r6_move_text(ctx):
                 _, calls = sl.data_backward({a["pl"]["l"]})
                 src[name] = [cb for cb, t in calls if cb in sq_calls]
         ok = src.get("source") == [sq_calls[0]] and src.get("target") == [sq_calls[1]]
-    ctx.ob(rid, "from_str-order", bool(ok), "" if ok else "UciMove::from_str does not take source from the first and target from the second pair of characters", ctx.where(h))
+    if len(sq_calls) != 2 or not agg or not hcfg.dominates(sq_calls[0], sq_calls[1]):
+        # not two Square::from_chars calls one after the other feeding one UciMove literal (a helper parses a square,
+        # a loop fills both): which characters become which square is not read here
+        ctx.lost(rid, "UciMove::from_str: two consecutive Square::from_chars calls feeding the UciMove (found %d)" % len(sq_calls))
+    else:
+        ctx.ob(rid, "from_str-order", bool(ok), "" if ok else "UciMove::from_str does not take source from the first and target from the second pair of characters", ctx.where(h))
 
 
 def run(ctx):
